@@ -98,7 +98,7 @@ def run(ctx):
     for cq in [CL] + m.subclasses(CL):
         c = m.classes[cq]
         for st, meth in c.fields.get("schema", []):
-            writers.add(meth.qualname)
+            writers.add(m.owner(meth).qualname)
     run.check(writers == {CL + ".__init__", CL + ".importSchemaComponent"},
               "C12.R4", CL, "writers of self.schema",
               "self.schema is written only by the constructor and by "
